@@ -14,6 +14,13 @@
 //	cfg <gasLimit> <gasPrice> <chainId> <op>…   history of gp:<v> | gl:<v> | re | tx:<outcomes> on one adaptor
 //	cr <randSeed> <cid>                         dosnode handleCR (hook) on a real adaptor: commit hash vs revealed secret
 //	race <n>                                    two callers on the real adaptor: B queues behind A, A's failures cancel all n endpoints
+//	sel                                         4-byte selectors of the ten queue methods: binding ABI (method.ID) vs reference signatures
+//
+// seq call names: ur UpdateRandomness, dr DataReturn, rg RegisterGroupPubKey, rn RegisterNewNode, cm Commit, rv Reveal
+// (the six of the property) and sg SetGroupSize, un UnRegisterNode, su SignalUnregister, sc StartCommitReveal (the other
+// four that go through the request queue).  Every recorded raw transaction is printed with its call data
+// (tx.Data()); the Lean driver prints selector ++ Abi.encodeRaw of the model for the same case line, so the two are
+// compared byte for byte.  An endpoint that accepts a transaction reports a pending nonce one higher afterwards.
 package c19
 
 import (
@@ -398,6 +405,8 @@ func describeTx(raw []byte, s *chaindouble.Stack) (string, *types.Transaction, [
 						parts = append(parts, u256(v[0]), u256(v[1]), u256(v[2]), u256(v[3]))
 					case [32]byte:
 						parts = append(parts, h.Hex(v[:]))
+					case common.Address:
+						parts = append(parts, h.Hex(v[:]))
 					default:
 						parts = append(parts, fmt.Sprintf("?%T", a))
 					}
@@ -409,11 +418,123 @@ func describeTx(raw []byte, s *chaindouble.Stack) (string, *types.Transaction, [
 			}
 		}
 	}
-	d := fmt.Sprintf("to=%s m=%s args=%s nonce=%d gas=%d price=%s chain=%s from=%s", to, name, argstr, tx.Nonce(), tx.Gas(), tx.GasPrice(), tx.ChainId(), from)
+	d := fmt.Sprintf("to=%s m=%s args=%s data=%s nonce=%d gas=%d price=%s chain=%s from=%s", to, name, argstr, dataText(tx.Data()), tx.Nonce(), tx.Gas(), tx.GasPrice(), tx.ChainId(), from)
 	if tx.Value().Sign() != 0 {
 		d += " value=" + tx.Value().String()
 	}
 	return d, tx, args, name
+}
+
+// dataText prints call data: in full up to 2 KiB, else length, Adler-32, the first 512 and the last 64 bytes.
+func dataText(b []byte) string {
+	if len(b) <= 2048 {
+		return h.Hex(b)
+	}
+	return fmt.Sprintf("%d:%d:%s:%s", len(b), adler32.Checksum(b), h.Hex(b[:512]), h.Hex(b[len(b)-64:]))
+}
+
+// refABI: what the deployed contracts declare for the ten methods of the request queue (DOSProxy.sol,
+// CommitReveal.sol) — the harness' own statement of "the intended method", independent of the bindings under test.
+const refABIJSON = `[
+{"type":"function","name":"setGroupSize","inputs":[{"name":"newSize","type":"uint256"}]},
+{"type":"function","name":"updateRandomness","inputs":[{"name":"sig","type":"uint256[2]"}]},
+{"type":"function","name":"triggerCallback","inputs":[{"name":"requestId","type":"uint256"},{"name":"trafficType","type":"uint8"},{"name":"result","type":"bytes"},{"name":"sig","type":"uint256[2]"}]},
+{"type":"function","name":"registerGroupPubKey","inputs":[{"name":"groupId","type":"uint256"},{"name":"suggestedPubKey","type":"uint256[4]"}]},
+{"type":"function","name":"registerNewNode","inputs":[]},
+{"type":"function","name":"unregisterNode","inputs":[]},
+{"type":"function","name":"signalUnregister","inputs":[{"name":"member","type":"address"}]},
+{"type":"function","name":"startCommitReveal","inputs":[{"name":"_startBlock","type":"uint256"},{"name":"_commitDuration","type":"uint256"},{"name":"_revealDuration","type":"uint256"},{"name":"_revealThreshold","type":"uint256"}]},
+{"type":"function","name":"commit","inputs":[{"name":"_cid","type":"uint256"},{"name":"_secretHash","type":"bytes32"}]},
+{"type":"function","name":"reveal","inputs":[{"name":"_cid","type":"uint256"},{"name":"_secret","type":"uint256"}]}
+]`
+
+var (
+	refABI  abi.ABI
+	refOnce sync.Once
+)
+
+func ref() abi.ABI {
+	refOnce.Do(func() {
+		var err error
+		if refABI, err = abi.JSON(strings.NewReader(refABIJSON)); err != nil {
+			panic(err)
+		}
+	})
+	return refABI
+}
+
+var refOrder = []string{"setGroupSize", "updateRandomness", "triggerCallback", "registerGroupPubKey", "registerNewNode",
+	"unregisterNode", "signalUnregister", "startCommitReveal", "commit", "reveal"}
+
+// wantData: the call data the PROPERTY demands: reference method, intended values (math/big from the case line),
+// packed by go-ethereum against the reference ABI.
+func wantData(c callSpec) []byte {
+	be := func(b []byte) *big.Int { return new(big.Int).SetBytes(b) }
+	sig2 := func(s []byte) [2]*big.Int {
+		if len(s) < 64 {
+			panic("case line: signature shorter than 64 bytes")
+		}
+		return [2]*big.Int{be(s[:32]), be(s[32:64])}
+	}
+	var name string
+	var vals []interface{}
+	switch c.name {
+	case "sg":
+		name, vals = "setGroupSize", []interface{}{h.BigDec(c.args[0])}
+	case "ur":
+		name, vals = "updateRandomness", []interface{}{sig2(h.UnHex(c.args[0]))}
+	case "dr":
+		blob := content(c.args[3])
+		if blob == nil {
+			blob = []byte{}
+		}
+		name, vals = "triggerCallback", []interface{}{be(h.UnHex(c.args[1])), uint8(h.Atoi(c.args[2]) % 256), blob, sig2(h.UnHex(c.args[0]))}
+	case "rg":
+		var k [4]*big.Int
+		for i := range k {
+			k[i] = h.BigDec(c.args[i+1])
+		}
+		name, vals = "registerGroupPubKey", []interface{}{h.BigDec(c.args[0]), k}
+	case "rn":
+		name = "registerNewNode"
+	case "un":
+		name = "unregisterNode"
+	case "su":
+		name, vals = "signalUnregister", []interface{}{common.BytesToAddress(h.UnHex(c.args[0]))}
+	case "sc":
+		for _, a := range c.args {
+			vals = append(vals, h.BigDec(a)) // negative values: two's complement, as the EVM reads an int64 widened to 256 bits
+		}
+		name = "startCommitReveal"
+	case "cm":
+		var b [32]byte
+		copy(b[:], h.UnHex(c.args[1]))
+		name, vals = "commit", []interface{}{h.BigDec(c.args[0]), b}
+	case "rv":
+		name, vals = "reveal", []interface{}{h.BigDec(c.args[0]), h.BigDec(c.args[1])}
+	default:
+		panic("bad call " + c.name)
+	}
+	d, err := ref().Pack(name, vals...)
+	if err != nil {
+		panic(err)
+	}
+	return d
+}
+
+func firstDiffByte(a, b []byte) int {
+	for i := 0; i < len(a) && i < len(b); i++ {
+		if a[i] != b[i] {
+			return i
+		}
+	}
+	if len(a) != len(b) {
+		if len(a) < len(b) {
+			return len(a)
+		}
+		return len(b)
+	}
+	return -1
 }
 
 type callSpec struct {
@@ -440,6 +561,19 @@ func intended(c callSpec) (to, method string, want []*big.Int, blob []byte, b32 
 		return "proxy", "registerGroupPubKey", w, nil, nil
 	case "rn":
 		return "proxy", "registerNewNode", nil, nil, nil
+	case "un":
+		return "proxy", "unregisterNode", nil, nil, nil
+	case "sg":
+		return "proxy", "setGroupSize", []*big.Int{h.BigDec(c.args[0])}, nil, nil
+	case "su":
+		return "proxy", "signalUnregister", []*big.Int{be(h.UnHex(c.args[0]))}, nil, nil
+	case "sc":
+		var w []*big.Int
+		two256 := new(big.Int).Lsh(big.NewInt(1), 256)
+		for _, a := range c.args {
+			w = append(w, new(big.Int).Mod(h.BigDec(a), two256))
+		}
+		return "cr", "startCommitReveal", w, nil, nil
 	case "cm":
 		return "cr", "commit", []*big.Int{h.BigDec(c.args[0])}, nil, h.UnHex(c.args[1])
 	case "rv":
@@ -463,6 +597,8 @@ func flatArgs(args []interface{}) (nums []*big.Int, blob []byte, b32 []byte) {
 			nums = append(nums, v[0], v[1], v[2], v[3])
 		case [32]byte:
 			b32 = append([]byte(nil), v[:]...)
+		case common.Address:
+			nums = append(nums, new(big.Int).SetBytes(v[:]))
 		}
 	}
 	return
@@ -482,6 +618,14 @@ func invoke(a onchain.ProxyAdapter, c callSpec) error {
 		return a.RegisterGroupPubKey(v)
 	case "rn":
 		return a.RegisterNewNode()
+	case "un":
+		return a.UnRegisterNode()
+	case "sg":
+		return a.SetGroupSize(h.BigDec(c.args[0]).Uint64())
+	case "su":
+		return a.SignalUnregister(common.BytesToAddress(h.UnHex(c.args[0])))
+	case "sc":
+		return a.StartCommitReveal(h.BigDec(c.args[0]).Int64(), h.BigDec(c.args[1]).Int64(), h.BigDec(c.args[2]).Int64(), h.BigDec(c.args[3]).Int64())
 	case "cm":
 		var b [32]byte
 		copy(b[:], h.UnHex(c.args[1]))
@@ -508,8 +652,12 @@ func execSeq(w []string) (res h.Result) {
 		return
 	}
 	defer st.Close()
+	// pending[i]: what endpoint i answers to eth_getTransactionCount(pending): 7+i at the start, one more after
+	// every transaction it has accepted (a chain node counts an accepted transaction as pending)
+	pending := make([]uint64, n)
 	for i, e := range st.RPC {
-		e.SetNonce(uint64(7 + i))
+		pending[i] = uint64(7 + i)
+		e.SetNonce(pending[i])
 		e.SetGasPrice(big.NewInt(int64(2000000000 + i)))
 	}
 	dead := map[int]bool{}
@@ -524,6 +672,7 @@ func execSeq(w []string) (res h.Result) {
 		var contacted, raw []int
 		var txs []string
 		wantTo, wantM, wantNums, wantBlob, wantB32 := intended(c)
+		wantCD := wantData(c)
 		for i, e := range st.RPC {
 			if len(e.Calls()) > 0 {
 				contacted = append(contacted, i)
@@ -554,8 +703,12 @@ func execSeq(w []string) (res h.Result) {
 						res.Oracle = fmt.Sprintf("tx-wrong-gas-limit: %d", tx.Gas())
 					case gp != 0 && tx.GasPrice().Cmp(new(big.Int).SetUint64(gp)) != 0:
 						res.Oracle = "tx-wrong-gas-price: " + tx.GasPrice().String()
-					case tx.Nonce() != uint64(7+i):
-						res.Oracle = fmt.Sprintf("tx-wrong-nonce: %d", tx.Nonce())
+					case tx.Nonce() != pending[i]:
+						res.Oracle = fmt.Sprintf("tx-wrong-nonce: %d, endpoint %d reports %d pending", tx.Nonce(), i, pending[i])
+					case tx.Value().Sign() != 0:
+						res.Oracle = "tx-carries-value: " + tx.Value().String()
+					case tx.Type() != types.LegacyTxType:
+						res.Oracle = fmt.Sprintf("tx-not-legacy: type %d", tx.Type())
 					case len(nums) != len(wantNums):
 						res.Oracle = "tx-wrong-arity"
 					case !bytes.Equal(blob, wantBlob):
@@ -568,6 +721,11 @@ func execSeq(w []string) (res h.Result) {
 								res.Oracle = fmt.Sprintf("tx-argument-%d-differs: got %s want %s (%s)", k, nums[k], wantNums[k], wantM)
 								break
 							}
+						}
+						// byte for byte: selector of the reference method ++ reference packing of the intended values
+						if res.Oracle == "" && !bytes.Equal(tx.Data(), wantCD) {
+							k := firstDiffByte(tx.Data(), wantCD)
+							res.Oracle = fmt.Sprintf("tx-calldata-differs: %s: %d bytes, intended %d bytes, first difference at byte %d", wantM, len(tx.Data()), len(wantCD), k)
 						}
 					}
 				}
@@ -622,6 +780,12 @@ func execSeq(w []string) (res h.Result) {
 			switch c.outs[i] {
 			case "conn", "nonce", "closed":
 				dead[i] = true
+			}
+		}
+		for _, i := range raw {
+			if c.outs[i] == "acc" {
+				pending[i]++
+				st.RPC[i].SetNonce(pending[i])
 			}
 		}
 		for _, o := range c.outs {
@@ -1019,10 +1183,41 @@ func execRace(w []string) (res h.Result) {
 	return
 }
 
+// sel: the 4-byte selector go-ethereum derives from the binding's embedded ABI for each of the ten queue methods;
+// oracle: it is keccak256(reference signature)[:4].
+func execSel() (res h.Result) {
+	abis()
+	var parts []string
+	for _, name := range refOrder {
+		m, ok := proxyABI.Methods[name]
+		if !ok {
+			m, ok = crABI.Methods[name]
+		}
+		if !ok {
+			parts = append(parts, name+"=missing")
+			if res.Oracle == "" {
+				res.Oracle = "binding-lacks-method: " + name
+			}
+			continue
+		}
+		parts = append(parts, name+"="+h.Hex(m.ID))
+		want := crypto.Keccak256([]byte(ref().Methods[name].Sig))[:4]
+		if !bytes.Equal(m.ID, want) && res.Oracle == "" {
+			res.Oracle = fmt.Sprintf("binding-selector-differs: %s: binding %s (%s), contract %s (%s)", name, h.Hex(m.ID), m.Sig, h.Hex(want), ref().Methods[name].Sig)
+		}
+	}
+	res.Impl = strings.Join(parts, " ")
+	res.Class = "sel"
+	res.Nontrivial = true
+	return
+}
+
 func exec(line string) (res h.Result) {
 	silence()
 	w := strings.Fields(line)
 	switch w[0] {
+	case "sel":
+		return execSel()
 	case "hr":
 		return execHR(w)
 	case "seq":
